@@ -307,7 +307,44 @@ CLOSURE_EXCEPTIONS: dict = {
 }
 
 
+# stages for which the self-nested form was confirmed to be meaningful Snowflake that must work (stage -> nested input)
+NESTING_MATTERS = {
+    "to_decimal": "select to_decimal(1 + to_decimal('2'))",
+    "try_to_decimal": "select try_to_decimal(try_to_decimal('12.3', 10, 1), 10, 0)",
+    "sha256": "select sha2_hex(sha2_hex('a'))",
+    "to_timestamp_ntz": "select to_timestamp_ntz(to_timestamp_ntz('2020-01-01 00:00:00'))",
+    "indices_to_json_extract": "select v['a']['b'][1] from t",
+    "json_extract_cast_as_varchar": "select parse_json(v:p::varchar):id::int from t",
+    "json_extract_cased_as_varchar": "select upper(lower(v:a::varchar)) from t",
+    "object_construct": "select object_construct('a', object_construct('b', null))",
+}
+
+
+def rule_self_nesting(ctx):
+    """C10.h: a rewritten construct nested in its own operand is rewritten too (see wiring.run_self_nesting)."""
+    from . import c10_wiring
+    from .wiring import run_self_nesting
+
+    run_self_nesting(ctx, "C10.h", c10_wiring.cases(), NESTING_MATTERS)
+
+
+def rule_utc_session(ctx):
+    """C10.g = C01.b: the epoch / timestamp rewrites (TO_TIMESTAMP(<seconds>) -> a TIMESTAMP cast, TO_TIMESTAMP_NTZ, TO_DATE of
+    those) give Snowflake's values only in a UTC session: every normal path of connect sets the engine time zone to UTC."""
+    from .c01 import rule_utc
+
+    before = len(ctx.obligations)
+    rule_utc(ctx)
+    for o in ctx.obligations[before:]:
+        o["rule"] = "C10.g"
+    for f in ctx.findings:
+        if f.rule == "C01.b":
+            f.rule = "C10.g"
+
+
 RULES = [
+    ("C10.h", rule_self_nesting, ("quick", "thorough")),
+    ("C10.g", rule_utc_session, ("quick", "thorough")),
     ("C10.f", rule_closure, ("quick", "thorough")),
     ("C10.d", rule_wiring, ("quick", "thorough")),
     ("C10.e", rule_macros, ("quick", "thorough")),
